@@ -13,7 +13,7 @@ mod model;
 
 pub const OP_NAMES: &[&str] = &[
     "Submit", "Recv", "Tick", "Update", "Flush", "Deliver", "Drop", "DropAll", "DeliverAll", "Hold", "Broadcast", "Mutate", "Forge",
-    "Junk", "Api", "RecvAll", "ForgeSlice", "ForgeClash", "SubmitBurst", "Churn", "SubmitHuge",
+    "Junk", "Api", "RecvAll", "ForgeSlice", "ForgeClash", "SubmitBurst", "Churn", "SubmitHuge", "ForgeFat",
 ];
 pub const K_SUBMIT: u8 = 0;
 pub const K_RECV: u8 = 1;
@@ -36,6 +36,7 @@ pub const K_FORGECLASH: u8 = 17;
 pub const K_SUBMITBURST: u8 = 18;
 pub const K_CHURN: u8 = 19;
 pub const K_SUBMITHUGE: u8 = 20;
+pub const K_FORGEFAT: u8 = 21;
 
 pub const UNREL: u8 = 0;
 pub const REL_ORD: u8 = 1;
